@@ -86,6 +86,11 @@ NOTES = {
  "C17-h": "escaped at first (structured runs were only read as JSON); structured YAML, JUnit and SARIF modes",
  "C18-h": "escaped at first (ints for parse_string were small); ints beyond 2^53 for every function (this also exposed a swallowed panic of the harness itself, see DESIGN 10.3)",
  "C19-h": "escaped at first (logical ids were numbered type by type); ids and document order are now independent of the types",
+ "C07-i": "escaped at first (several rules files went through -r only); the multi-file stage also hands the rules texts to --payload (plain -o json and console)",
+ "C08-i": "escaped at first (short-form tags only sat on the kind of node they are meant for); five documents with every tag on the wrong kind of node, also at the root",
+ "C10-i": "escaped at first (no map with two spellings of one key below a converted key; and a reached point was accepted for *any* context prefix, the reached value itself included); a fifth of the documents carry the case-twin idiom, the path oracle knows the key-case conversion (the key as written first), and the idiom's rule-level clauses are judged against the root context only",
+ "C13-i": "escaped at first (no two distinct floats closer than f64::EPSILON in the quick universe); 1e-300 / 0.0 and 1.0 / 1.0000000000000002 added",
+ "C15-i": "escaped at first (shadowing definitions were literals); half of the shadowing lets are function calls yielding the literal (not under negated operators: F24)",
  "C09-a": "caught through the file-status law; C09 now also compares rule names with the generated programs",
 }
 rows = []
